@@ -1299,7 +1299,37 @@ def wl_fill(rng, rec, tier):
     if A is None:
         return {"rejected": True}
     gen.attempt(A.fill_empty_sites, gen.choice(rng, ["full", "minimal"]))
-    return {"L": L, "sites": sites}
+    # constructors given a subset of sites: the geometry they declare (L, which sites
+    # are present) and the open labels must be those of the sites given, the dense
+    # value that of the arrays
+    from ..core import dense_of
+    n2 = int(rng.integers(1, min(L, 4) + 1))
+    sub = sorted(int(i) for i in rng.choice(L, size=n2, replace=False))
+    D = int(rng.integers(1, 4))
+    what = gen.choice(rng, ["mps_arrays", "mpo_rand", "mpo_fill"])
+    if what == "mps_arrays":
+        arrs = []
+        for i in range(n2):
+            shp = (() if i == 0 else (D,)) + (() if i == n2 - 1 else (D,)) + (d,)
+            arrs.append(gen.rand_array(rng, shp, dt))
+        obj = gen.attempt2(qtn.MatrixProductState, arrs, sites=sub, L=L)
+        want_outer = None if obj is gen.REJECTED else {obj.site_ind(i) for i in sub}
+    elif what == "mpo_rand":
+        obj = gen.attempt2(qtn.MPO_rand, L, D, phys_dim=d, sites=sub, dtype=dt, seed=int(rng.integers(1 << 30)))
+        want_outer = None if obj is gen.REJECTED else {obj.upper_ind(i) for i in sub} | {obj.lower_ind(i) for i in sub}
+    else:
+        obj = gen.attempt2(qtn.MatrixProductOperator.from_fill_fn, lambda shape: np.ones(shape), L, D, phys_dim=d, sites=sub)
+        want_outer = None if obj is gen.REJECTED else {obj.upper_ind(i) for i in sub} | {obj.lower_ind(i) for i in sub}
+    if obj is not gen.REJECTED:
+        got_outer = set(obj.outer_inds())
+        present = sorted(obj.gen_sites_present())
+        ok = obj.L == L and present == sub and got_outer == want_outer
+        rec.check("generator", "geometry", bool(ok), mech=f"generator:{what}:subset_of_sites:geometry",
+                  detail={"L": L, "sites": sub, "got_L": int(obj.L), "present": [int(i) for i in present],
+                          "extra_outer": sorted(map(str, got_outer - want_outer))[:4],
+                          "missing_outer": sorted(map(str, want_outer - got_outer))[:4]},
+                  sig=("subset_geometry", what, n2 == L))
+    return {"L": L, "sites": sites, "sub": sub, "what": what}
 
 
 METHODS = ["direct", "dm", "zipup", "zipup-first", "zipup-oversample", "sdc", "sdc-oversample",
@@ -1352,8 +1382,25 @@ def wl_compress(rng, rec, tier):
         kw["normalize"] = True
     if rng.random() < 0.1:
         kw["canonize"] = False
-    gen.attempt(qtn.tensor_network_1d_compress, tn, **kw)
-    return {"kind": kind, "method": method, "L": L, "max_bond": kw["max_bond"], "cutoff": cutoff}
+    # stored exponents (what equalize_norms / strip_exponent leave behind), sums of
+    # several networks for the fitting methods, in-place spelling
+    extra = {}
+    if rng.random() < 0.3:
+        tn = tn.copy()
+        tn.exponent = float(gen.choice(rng, [1.0, -1.0, 0.5]))
+        extra["exponent"] = tn.exponent
+    target = tn
+    if method.startswith("fit") and kind == "mps" and rng.random() < 0.3:
+        y, _ = rand_mps(rng, L, dtype=dtype, maxd=3, phys=phys)
+        if rng.random() < 0.6:
+            y.exponent = -float(tn.exponent) if tn.exponent else float(gen.choice(rng, [1.0, -0.5]))
+        target = [tn, y]
+        extra["sum"] = [float(tn.exponent), float(y.exponent)]
+    if rng.random() < 0.25:
+        kw["inplace"] = True
+        extra["inplace"] = True
+    gen.attempt(qtn.tensor_network_1d_compress, target, **kw)
+    return {"kind": kind, "method": method, "L": L, "max_bond": kw["max_bond"], "cutoff": cutoff, **extra}
 
 
 def wl_flat_compress(rng, rec, tier):
